@@ -10,10 +10,11 @@ echo "== demo with change =="; go test -count=1 -run 'TestSeeded' . 2>&1 | tail 
 git stash push -q -- $(git diff --name-only | grep -v verif_contracts.go) ; echo "== demo without change =="; go test -count=1 -run 'TestSeeded' . 2>&1 | tail -2; git stash pop -q
 mv seeded_demo_test.go /tmp/seeded_demo_test.go.bak; echo "== suite with change =="; go test -count=1 . 2>&1 | tail -1; mv /tmp/seeded_demo_test.go.bak seeded_demo_test.go
 cd /verif
+if [ -n "$(git -C /repo status --porcelain)" ]; then echo "REFUSING: /repo has uncommitted changes (commit them first; this script reverts the seeded patch)"; exit 2; fi
 git -C /repo apply $wt/patch.diff || { echo "patch does not apply to /repo"; exit 2; }
 for p in "$@"; do
   echo "== check $p on seeded tree =="
   bin/limevc -repo /repo -verif /verif -prop $p -no-evidence -out /tmp/seedout 2>&1 | grep "VIOLATION\|UNDEC\|VACUOUS\|^property" | sed 's/replay=[^ ]* //' | head -12
 done
-git -C /repo checkout -- . ; git -C /repo status --short | head -3
+git -C /repo apply -R $wt/patch.diff ; git -C /repo status --short | head -3
 rm -rf /tmp/seedout
